@@ -1,4 +1,5 @@
 import AmVerif.Model.World
+import AmVerif.Gen.Skel
 /-!
 # Hot-reloading: the reloader's data (`paths.rs`, `dependencies.rs`) and one update pass
 
@@ -47,28 +48,48 @@ def Graph.insertAsset (g : Graph) (a : Dep) (deps : List Dep) : Graph :=
       | some n => g.set d { n with rdeps := n.rdeps.filter (· ≠ a) }
       | none => g) g2
 
-/-- `DepsGraph::visit`, fuelled; `markFirst` says whether the node is marked visited before
-(repaired) or after (as the source has it) recursing into its reverse dependencies.
-`none` = fuel exhausted (unbounded recursion in the code). -/
-def visit (g : Graph) (markFirst : Bool) : Nat → Dep → (List Dep × List Key) → Option (List Dep × List Key)
-  | 0, _, _ => none
-  | f+1, d, (visited, out) =>
-    if d ∈ visited then some (visited, out) else
-    match g.get d with
-    | none => some (visited, out)
-    | some node =>
-      let visited0 := if markFirst then d :: visited else visited
-      let r := node.rdeps.foldl (fun acc r => acc.bind (visit g markFirst f r)) (some (visited0, out))
-      r.map fun (v, o) =>
-        let v := if markFirst then v else d :: v
-        match d with
-        | .asset k => (v, k :: o)
-        | _ => (v, o)
+/-- DFS state of `topological_sort_from`: `vis` = `sort_data.visited`, `out` = `sort_data.list`
+already reversed (`k :: out`: a node ends up before the nodes that depend on it). -/
+structure VSt (α : Type) where
+  vis : List α
+  out : List α
 
-/-- `topological_sort_from(changed).into_iter()`: reversed post-order, i.e. every asset after the
-entries it depends on. With `k :: o` accumulation the list is already in reload order. -/
-def topo (g : Graph) (markFirst : Bool) (fuel : Nat) (changed : List Dep) : Option (List Key) :=
-  (changed.foldl (fun acc d => acc.bind (visit g markFirst fuel d)) (some ([], []))).map (·.2)
+/-- `DepsGraph::visit`, fuelled (the recursion depth of the code is bounded by the number of nodes
+because a node is marked visited *before* its reverse dependencies are visited — obligation
+`visit_marks_first` on the regenerated skeleton). `rdeps k = none`: `k` is not in the graph.
+`none` result = fuel exhausted. Generic in the node type. -/
+def visitG {α : Type} [DecidableEq α] (rdeps : α → Option (List α)) : Nat → VSt α → α → Option (VSt α)
+  | 0, _, _ => none
+  | f+1, st, k =>
+    if k ∈ st.vis then some st else
+    match rdeps k with
+    | none => some st
+    | some rs =>
+      match rs.foldlM (fun s r => visitG rdeps f s r) ⟨k :: st.vis, st.out⟩ with
+      | none => none
+      | some s => some ⟨s.vis, k :: s.out⟩
+
+def sortFrom {α : Type} [DecidableEq α] (rdeps : α → Option (List α)) (fuel : Nat) (changed : List α) : Option (VSt α) :=
+  changed.foldlM (fun s d => visitG rdeps fuel s d) ⟨[], []⟩
+
+def Graph.rdepsOf (g : Graph) (d : Dep) : Option (List Dep) := (g.get d).map (·.rdeps)
+
+def assetKeys : List Dep → List Key
+  | [] => []
+  | .asset k :: ds => k :: assetKeys ds
+  | _ :: ds => assetKeys ds
+
+/-- `topological_sort_from(changed).into_iter()`: the assets to reload, every asset after the
+entries it depends on. -/
+def topo (g : Graph) (fuel : Nat) (changed : List Dep) : Option (List Key) :=
+  (sortFrom g.rdepsOf fuel changed).map fun st => assetKeys st.out
+
+/-- Does `DepsGraph::visit` mark a node visited before recursing into its reverse dependencies?
+(derived from the regenerated skeleton: `visited.insert` before or after the loop) -/
+def visitMarksFirst : Bool :=
+  match skel_hot_reloading_dependencies_DepsGraph_visit with
+  | [.call .s_contains, .branch _, .call .s_get, .branch _, .call .s_insert, .loop _, .branch _] => true
+  | _ => false
 
 /-- the reloader thread's data -/
 structure RSt where
@@ -134,8 +155,8 @@ def reloadAll (env : Env) (fuel : Nat) : List Key → St × RSt → St × RSt
     | none => reloadAll env fuel ks (s, r)
 
 /-- `run_update`: sort, clear the changed set, reload each. -/
-def runUpdate (env : Env) (markFirst : Bool) (fuel : Nat) (s : St) (r : RSt) : St × RSt :=
-  match topo r.graph markFirst fuel r.toReload with
+def runUpdate (env : Env) (fuel : Nat) (s : St) (r : RSt) : St × RSt :=
+  match topo r.graph fuel r.toReload with
   | none => (s, { r with dead := true })
   | some keys => reloadAll env fuel keys (s, { r with toReload := [] })
 
@@ -148,30 +169,30 @@ def processMsgs (s : St) (r : RSt) : St × RSt :=
   ({ s with out := [] }, r')
 
 /-- `handle_events`: keep the entries the graph knows; in static mode update at once. -/
-def handleEvents (env : Env) (markFirst : Bool) (fuel : Nat) (s : St) (r : RSt) (evs : List Dep) : St × RSt :=
+def handleEvents (env : Env) (fuel : Nat) (s : St) (r : RSt) (evs : List Dep) : St × RSt :=
   if r.dead then (s, r) else
   let (s, r) := processMsgs s r
   let r := { r with toReload := evs.foldl (fun l e => if (r.graph.get e).isSome then addIfAbsent e l else l) r.toReload }
   if r.static_ then
-    let (s, r) := runUpdate env markFirst fuel s r
+    let (s, r) := runUpdate env fuel s r
     processMsgs s r
   else (s, r)
 
 /-- `hot_reload()` in local mode: drain messages, update; messages sent by nested loads of the
 reloads are drained as well (they are in the channel before the next request). -/
-def hotReload (env : Env) (markFirst : Bool) (fuel : Nat) (s : St) (r : RSt) : St × RSt :=
+def hotReload (env : Env) (fuel : Nat) (s : St) (r : RSt) : St × RSt :=
   if r.dead then (s, r) else
   let (s, r) := processMsgs s r
   if r.static_ then (s, r) else
-  let (s, r) := runUpdate env markFirst fuel s r
+  let (s, r) := runUpdate env fuel s r
   processMsgs s r
 
 /-- `enhance_hot_reloading`: switch to the static mode and update once. -/
-def enhance (env : Env) (markFirst : Bool) (fuel : Nat) (s : St) (r : RSt) : St × RSt :=
+def enhance (env : Env) (fuel : Nat) (s : St) (r : RSt) : St × RSt :=
   if r.dead then (s, r) else
   let (s, r) := processMsgs s r
   if r.static_ then (s, r) else
-  let (s, r) := runUpdate env markFirst fuel s { r with static_ := true }
+  let (s, r) := runUpdate env fuel s { r with static_ := true }
   processMsgs s r
 
 end AmVerif.Model
